@@ -2,9 +2,17 @@
 Secondary tie for C11: `OnlineReader.ns`, the duration `Reader.open` writes on a size mismatch and `Reader.ns`, as
 GENERATED from the current text of src/spikeglx.py (float expressions read as exact rationals), equal the model's
 `framesOnDisk`; composed, the sample count after `open` is the number of complete frames on disk.
+
+Round h: `Reader.open` GENERATED as the sequence of its observable steps, once per combination of its non-integer tests
+(`is_mtscomp`, `meta is not None`, `ignore_warnings`, the tuple comparison of the mtscomp branch — fixed per item by an
+assumption of the spec harness/tiespecs/c11.py), equals the step model `OpenSize.openBinSteps` / `openCbinSteps`
+(`Model/OpenSizeLifecycle.lean`) for EVERY `nc, ns, itemsize, nbytes`: the integer mismatch test, the rewrite exactly under it and
+independent of `ignore_warnings`, never for a flat reader, the warning only when not ignored and (uncompressed branch) without
+subscripting the meta data, the memory map of shape `(self.ns, self.nc)` last.  The duration the mtscomp branch stores is
+`shape[0] / fs` with the META rate and `Reader.ns` evaluated on it gives back `shape[0]`; `Reader.shape = (ns, nc)`.
 -/
 import IblVerif.Generated.SrcC11
-import IblVerif.Model.OpenSize
+import IblVerif.Model.OpenSizeLifecycle
 namespace IblVerif.Tie.C11
 open IblVerif IblVerif.Tie
 
@@ -43,5 +51,80 @@ theorem ns_after_open_eq (bytes itemsize nc fsn fsd : Nat) (hn : 0 < fsn) (hd : 
     push_cast; rw [Int.mul_assoc, Int.mul_comm (fsd : Int) (fsn : Int)]
   rw [this]
   exact pyRound_mul _ _ (Int.mul_pos (by omega) (by omega))
+
+/-! ### Round h: the steps of `Reader.open` -/
+
+abbrev Ev := String × List Int
+
+/-- how the translator's event patterns (harness/tiespecs/c11.py) name the model's steps -/
+def enc : OpenSize.Step → Ev
+  | .mtscompReader => ("mtscomp", [])
+  | .chOpen => ("chopen", [])
+  | .warn true => ("warn_subscript", [])
+  | .warn false => ("warn", [])
+  | .setFileTimeSecs => ("setfts", [])
+  | .memmap cols => ("memmap", [(cols : Int)])
+
+theorem mismatch_cast (nc ns itemsize nbytes : Nat) :
+    ((nc : Int) * (ns : Int) * (itemsize : Int) ≠ (nbytes : Int)) ↔ nc * ns * itemsize ≠ nbytes := by
+  constructor
+  · intro h h'; apply h; exact_mod_cast h'
+  · intro h h'; apply h; exact_mod_cast h'
+
+/-- Uncompressed branch of a reader WITH meta data, warnings on or ignored: for every channel count, sample count, item size
+and `self.nbytes` the source performs exactly the model's steps. -/
+theorem open_bin_steps_eq (nc ns itemsize nbytes : Nat) :
+    Src.C11.open_bin_meta_warn nc ns itemsize nbytes
+        = (OpenSize.openBinSteps true false nc ns itemsize nbytes).map enc ∧
+    Src.C11.open_bin_meta_quiet nc ns itemsize nbytes
+        = (OpenSize.openBinSteps true true nc ns itemsize nbytes).map enc := by
+  unfold Src.C11.open_bin_meta_warn Src.C11.open_bin_meta_quiet OpenSize.openBinSteps
+  by_cases h : nc * ns * itemsize ≠ nbytes
+  · have h' := (mismatch_cast nc ns itemsize nbytes).mpr h
+    simp [h, h', enc]
+  · have h' : ¬ ((nc : Int) * (ns : Int) * (itemsize : Int) ≠ (nbytes : Int)) :=
+      fun hh => h ((mismatch_cast nc ns itemsize nbytes).mp hh)
+    simp [h, h', enc]
+
+/-- Flat reader (no meta data): whatever the sizes say, nothing is warned about or rewritten; the file is mapped. -/
+theorem open_flat_steps_eq (nc ns itemsize nbytes : Nat) (iw : Bool) :
+    Src.C11.open_bin_flat nc ns itemsize nbytes
+        = (OpenSize.openBinSteps false iw nc ns itemsize nbytes).map enc := by
+  unfold Src.C11.open_bin_flat OpenSize.openBinSteps
+  by_cases h : ((nc : Int) * (ns : Int) * (itemsize : Int) ≠ (nbytes : Int)) <;> simp [h, enc]
+
+/-- mtscomp branch: reader, `.ch` opened, then (shape mismatch) the warning unless ignored and the rewrite; nothing is mapped. -/
+theorem open_cbin_steps_eq :
+    Src.C11.open_cbin_mismatch_warn = (OpenSize.openCbinSteps true false).map enc ∧
+    Src.C11.open_cbin_mismatch_quiet = (OpenSize.openCbinSteps true true).map enc ∧
+    Src.C11.open_cbin_match = (OpenSize.openCbinSteps false false).map enc ∧
+    Src.C11.open_cbin_match = (OpenSize.openCbinSteps false true).map enc := by
+  unfold Src.C11.open_cbin_mismatch_warn Src.C11.open_cbin_mismatch_quiet Src.C11.open_cbin_match OpenSize.openCbinSteps
+  simp [enc]
+
+/-- the duration the mtscomp branch stores: (samples of the stream × fs_den) / fs_num seconds — the META rate, no other
+quantity (the `.ch` sample rate does not occur) -/
+theorem cbin_ftsec_eq (n fsn fsd : Nat) :
+    Src.C11.cbin_ftsec n fsn fsd = (((n * fsd : Nat) : Int), (fsn : Int)) := by
+  unfold Src.C11.cbin_ftsec
+  push_cast
+  rfl
+
+/-- `Reader.ns` evaluated on the duration the mtscomp branch wrote: exactly the stream's sample count (real arithmetic;
+this is `openCbin`'s `ch.nSamples` of `Model/OpenSize.lean`). -/
+theorem ns_after_cbin_open_eq (n fsn fsd : Nat) (hn : 0 < fsn) (hd : 0 < fsd) :
+    Src.C11.reader_ns (Src.C11.cbin_ftsec n fsn fsd).1 (Src.C11.cbin_ftsec n fsn fsd).2 fsn fsd = (n : Int) := by
+  rw [cbin_ftsec_eq]
+  unfold Src.C11.reader_ns
+  simp only
+  have : ((n * fsd : Nat) : Int) * (fsn : Int) = (n : Int) * ((fsn : Int) * (fsd : Int)) := by
+    push_cast; rw [Int.mul_assoc, Int.mul_comm (fsd : Int) (fsn : Int)]
+  rw [this]
+  exact pyRound_mul _ _ (Int.mul_pos (by omega) (by omega))
+
+/-- `Reader.shape = (ns, nc)` -/
+theorem shape_eq (ns nc : Int) : Src.C11.reader_shape ns nc = (ns, nc) := by
+  unfold Src.C11.reader_shape
+  rfl
 
 end IblVerif.Tie.C11
